@@ -78,6 +78,7 @@ THEOREMS = [
     "XalanModel.Props.C12.walk_preceding_eq_def",
     "XalanModel.Props.C12.walk_namespace_eq_def",
     "XalanModel.Props.C12.walkShapes_unchanged",
+    "XalanModel.Props.C12.buildersFlushBeforeCreate",
     "XalanModel.Props.C12.reverseAxes",
     "XalanModel.Props.C12.reverseAxis_position",
     "XalanModel.Props.C12.treeLocationPath_sortedSet",
@@ -234,6 +235,17 @@ class Oracle:
                 return ("structural.ancestor-descendant" if self.rep == "N" else "isNodeAfter",
                         "rep=%s doc=%s isNodeAfter(%d,%d)=%s for an ancestor/descendant pair (%d such pairs wrong)" % (
                             self.rep, self.docs[d][0], a, b, got, len(bad_rel)))
+            return None
+        if op == "build":
+            if not reply.startswith("built "):
+                return None if reply.startswith("ERR") else ("build-reply", "%s -> %s" % (req, reply))
+            if "idx=preorder" not in reply:
+                return ("index-order", "the tree built from events %s (builder %s) is not numbered in pre-order: %s" % (t[3], t[2], reply))
+            kinds, parents = gen().expected_built(t[2], t[3])
+            parts = dict(p.split("=", 1) for p in reply.split()[1:] if "=" in p)
+            if parts.get("kinds") != kinds or parts.get("parents", "") != ",".join(str(x) for x in parents[1:]):
+                return ("built-shape", "events %s (builder %s) built %s, expected kinds=%s parents=%s" % (
+                    t[3], t[2], reply, kinds, ",".join(str(x) for x in parents[1:])))
             return None
         if op in ("axis", "axisp"):
             if "?" in reply.split():
@@ -393,6 +405,11 @@ def make_sessions(r, nsessions, maxnodes, nhist, maxops, nxp, avoid_lt_on_n=Fals
                 s.cases.append(("axis", ["axis d%d.%d %s" % (d, cn, a) for a in AXES]))
                 if r.chance(1, 3):
                     s.cases.append(("axis", ["axisp d%d.%d %s %d" % (d, cn, a, r.range(1, 3)) for a in AXES]))
+        if rep == "S":
+            # trees the processor builds itself: index order must be the structural pre-order on the real tree
+            for k in range(6):
+                mode = r.choice("FFFDB")
+                s.cases.append(("build", ["build %d %s %s" % (100 + k, mode, g.gen_events(r, mode, r.range(2, 14)))]))
         for _ in range(nhist):
             style = "pure" if r.chance(3, 5) else "wild"
             s.cases.append(("hist-" + style, g.gen_history(r, sizes, maxops, style)))
@@ -442,6 +459,15 @@ def corpus_sessions():
     s = Session("S", {0: "e0(e0(e0())e0()e1(te1(e0(tpe0()e0())e0(e1()))c))"})
     s.cases.append(("xp", ["xp d0.19 preceding::node()", "xp d0.19 ancestor::node()", "xp d0.19 ancestor::*", "#forms " + json.dumps(
         ["d0.19", [["preceding::node()", "ancestor::node()"], ["ancestor::node()", "preceding::node()"], ["preceding::node()", "ancestor::*"]]])]))
+    out.append(s)
+    # every event sequence of up to 3 events through the three ways the processor builds a source tree itself
+    s = Session("S", {})
+    k = 100
+    for ev in gen().all_event_seqs(3):
+        s.cases.append(("build", ["build %d F %s" % (k, ev)])); k += 1
+        s.cases.append(("build", ["build %d D s0%sx" % (k, ev)])); k += 1
+        if "d" not in ev and "r" not in ev:
+            s.cases.append(("build", ["build %d B cs1%sxp" % (k, ev)])); k += 1
     out.append(s)
     for rep in ("W", "N"):
         s = Session(rep, {0: "ce2(te1(t)c)p", 1: "e0(e0()e0())"})
@@ -816,6 +842,38 @@ def cli_stage(ctx, r, ncases, maxnodes):
                              "nodes of two result tree fragments are interleaved (one fragment was built lazily while the other was "
                              "under construction; both live in one XalanSourceTreeDocument that numbers nodes in creation order): " + l,
                              {"stylesheet": cfile})
+    # result tree fragments built from every kind of result event in every adjacency: the structural walk (W) against
+    # the order in which `//node()|//@*` (U) and a union of per-kind selections (V) deliver the nodes (merged by index)
+    m0 = g.LabDoc(Rng(4242), "m", 12, True)
+    with open(os.path.join(work, "m.xml"), "w") as f:
+        f.write(m0.document())
+    for ri in range(ncases + 1):
+        sheet, bodies = g.gen_rtf_case(r, r.range(3, 8), corpus=(ri == 0))
+        with open(os.path.join(work, "r.xsl"), "w") as f:
+            f.write(sheet)
+        rc, out = common.sh([xalan, "m.xml", "r.xsl"], cwd=work, timeout=120)
+        if rc != 0:
+            ctx.fail("cli-crash: rtf-events rc=%d %s" % (rc, out[-300:].replace("\n", " ")),
+                     "Xalan CLI failed on a generated result-tree-fragment stylesheet: " + out[-600:], {"r.xsl": sheet})
+            continue
+        rows = {}
+        for l in out.split("\n"):
+            if l[:1] in "WUV" and ":" in l:
+                k, v = l.split(":", 1)
+                rows[k] = v
+        nb = len(bodies)
+        ctx.case(nontrivial_key="rtf|" + "|".join(bodies), cls="cli-rtf-events",
+                 sample={"rtf_bodies": bodies[:2]} if ri == 1 else None)
+        ctx.hist["rtf-fragments"] = ctx.hist.get("rtf-fragments", 0) + nb
+        for k in range(1, nb + 1):
+            w, u, v = rows.get("W%d" % k), rows.get("U%d" % k), rows.get("V%d" % k)
+            if w is None or u is None or v is None:
+                ctx.fail("cli-missing: rtf-events fragment %d" % k, "no output for fragment %d" % k, {"r.xsl": sheet})
+            elif not (w == u == v):
+                ctx.fail("index-order: rtf body %s" % bodies[k - 1],
+                         "result tree fragment built from %s: structural walk %s but //node()|//@* delivers %s and the per-kind "
+                         "union %s (stored indexes are not the pre-order numbering)" % (bodies[k - 1], w, u, v),
+                         {"r.xsl": sheet, "m.xml": m0.document(), "fragment": k})
     import re as _re
     for ci in range(ncases):
         case = g.gen_cli_case(r, maxnodes)
@@ -852,6 +910,7 @@ def run(ctx):
     flavor = os.environ.get("VERIF_C12_FLAVOR", "hooks")
     ctx.extra["flavor"] = flavor
     ctx.build(flavor)
+    ctx.translate("c12_flush")       # both source-tree builders flush buffered text before creating a node (buildersFlushBeforeCreate)
     ctx.translate("c12_walks")       # loop skeletons of the axis walks -> Generated/C12_WalkShapes.lean (walkShapes_unchanged)
     ctx.lean("XalanModel.Props.C12", THEOREMS, extra_targets=["xm_c12"])
     model = ctx.exe("xm_c12")
@@ -903,6 +962,11 @@ def run(ctx):
     ncorp = len([s_ for s_ in corpus_sessions() if s_.rep in reps])
     if ctx.thorough:
         exh, nshapes = exhaustive_sessions(5, 5)
+        sb = Session("S", {})
+        kb = 100
+        for ev in g.all_event_seqs(5):
+            sb.cases.append(("build", ["build %d F %s" % (kb, ev)])); kb += 1
+        exh.append(sb)
         exh = [s_ for s_ in exh if s_.rep in reps]
         sessions = sessions[:ncorp] + exh + sessions[ncorp:]
         ctx.extra["exhaustive_scope"] = ("every document shape with <= 5 nodes below the document node (%d shapes) x 3 representations: "
@@ -940,7 +1004,7 @@ def run(ctx):
             d = int(cl[0].split()[1])
             nontriv = len(g.parse_shape(s.shapes[d], s.rep)[0]) >= 4
             text = s.rep + "|" + s.shapes[d] + "|afterall"
-        elif kind == "axis":
+        elif kind in ("axis", "build"):
             nontriv = True
         elif kind.startswith("hist"):
             nontriv = sum(1 for x in cl if x.startswith("add")) >= 3
